@@ -468,7 +468,8 @@ void instance_t::clock_in_directive(char * line, bool capitalized)
 {
   string datetime(line, 2, 19);
 
-  char * p   = skip_ws(line + 22);
+  // The account starts at column 22; a shorter line has no account field.
+  char * p   = skip_ws(line + std::min<std::size_t>(22, std::strlen(line)));
   char * n   = next_element(p, true);
   char * end = n ? next_element(n, true) : NULL;
 
@@ -486,9 +487,12 @@ void instance_t::clock_in_directive(char * line, bool capitalized)
   position.sequence = context.sequence++;
 
   time_xact_t event(position, parse_datetime(datetime), capitalized,
-                    p ? top_account()->find_account(p) : NULL,
+                    *p ? top_account()->find_account(p) : NULL,
                     n ? n : "",
                     end ? end : "");
+
+  if (! event.account)
+    throw parse_error(_("Timelog check-in requires an account"));
 
   timelog.clock_in(event);
 }
@@ -497,7 +501,8 @@ void instance_t::clock_out_directive(char * line, bool capitalized)
 {
   string datetime(line, 2, 19);
 
-  char * p = skip_ws(line + 22);
+  // The account starts at column 22; a shorter line has no account field.
+  char * p = skip_ws(line + std::min<std::size_t>(22, std::strlen(line)));
   char * n = next_element(p, true);
   char * end = n ? next_element(n, true) : NULL;
 
@@ -515,7 +520,7 @@ void instance_t::clock_out_directive(char * line, bool capitalized)
   position.sequence = context.sequence++;
 
   time_xact_t event(position, parse_datetime(datetime), capitalized,
-                    p ? top_account()->find_account(p) : NULL,
+                    *p ? top_account()->find_account(p) : NULL,
                     n ? n : "",
                     end ? end : "");
 
